@@ -27,12 +27,15 @@ def run(ctx):
 
     # 2. behaviours -> real store, crash images at every durable step, behaviour continued on the image
     n = ctx.pick(1, 5)
+    fixed = te.known_behaviours(ctx)
+    have_f1 = sum(1 for b in fixed if te.has_f1_history(b))
     gens = te.run_parallel([
-        lambda: te.generate(ctx, sd, "GenCrash", te.gen_consts(["write", "snapshot", "reopen", "crash"], crash=4, comp=0, dele=0), num=10 * n),
+        lambda: te.generate_with(ctx, sd, "GenCrash", te.gen_consts(["write", "snapshot", "reopen", "crash"], crash=4, comp=0, dele=0), 10 * n,
+                                 te.has_f1_history, 3, "the history torn tail -> restart -> acknowledged write", have=have_f1)[0],
         lambda: te.generate(ctx, sd, "GenCompact", te.gen_consts(["write", "snapshot", "gate", "compact", "crash"], crash=2, dele=0, w=5, snap=4, crash_in=("compact", "snapshot", "restart")), num=10 * n),
         lambda: te.generate(ctx, sd, "GenDelete", te.gen_consts(["write", "snapshot", "compact", "delete", "reopen", "crash"], crash=3, crash_in=("delete", "compact", "idle", "restart")), num=6 * n),
     ])
-    behs = te.known_behaviours(ctx) + [b for g in gens for b in g]
+    behs = fixed + [b for g in gens for b in g]
     acts, f1, f14 = te.stats(behs)
     log("  behaviours: %d; second-restart-after-torn-tail histories: %d; step kinds: %d" % (len(behs), f1, len(acts)))
     if f1 == 0:
